@@ -277,7 +277,9 @@ class VirtRig:
             self.skipped += 1
 
     def apply_default(self):
-        """Schedule exhausted: let everything that is running finish (or die if it was told to)."""
+        """Schedule exhausted: let everything that is running finish (or die if it was told to).  A process
+        that has reported its outcome is *not* made to exit: when it exits is the environment's choice, and
+        the adversarial one (after run_tasks has returned) must stay reachable."""
         for w in list(self.workers.values()):
             if w.state == 'run':
                 self.defaulted += 1
@@ -285,9 +287,6 @@ class VirtRig:
                     self.die(w)
                 else:
                     self.finish(w)
-                    self.exit(w)
-            elif w.state == 'put':
-                self.exit(w)
 
     def finish(self, w):
         self.trace.extend(w.events)
